@@ -1,4 +1,4 @@
-import MxModel.Proofs.CalcRun
+import MxModel.Proofs.CalcAnc
 /-!
 # C16 – Memory-optimised runs: the plan made by `get_calcsteps`
 
@@ -300,9 +300,9 @@ respect to the recorded trace edges) of exactly these elements for the targets t
 inputs, clear them, execute.  Well-formedness of the starting point: trace edges start at elements
 that have a value (`hct`); when tracing ends every calculated value has its callees held and the
 calls recorded (`hcomp`: the cache was complete, and tracing ran to completion – the depth bound was
-not hit); the planned elements are closed under callees that are not user inputs (`hclosed`: the
-backward search over the trace graph is complete – `nx.ancestors` is, the model's is tested on every
-case).  Then the targets are held and value-pasted; whatever else is held was held before
+not hit).  (That the planned elements are then closed under callees – the backward search over the
+trace graph is complete, every traced element reaches a target – is proved: `planned_closed`.)  Then
+the targets are held and value-pasted; whatever else is held was held before
 `generate_actions` and is none of the planned elements – nothing a target was calculated from is
 left behind; the user inputs are those of the start plus the targets; the trace edges are those
 `generate_actions` left (none touches a planned element); and the execution ran exactly the
@@ -315,8 +315,6 @@ theorem generate_plan_execute_correct (preds : Node → List Node) (fuel fuel' :
     (hcomp : ∀ n ∈ (traceTargets preds (fuel + 1) targets c).held, n ∉ c.inputs → ∀ p ∈ preds n,
       p ∈ (traceTargets preds (fuel + 1) targets c).held ∧
       (p, n) ∈ (traceTargets preds (fuel + 1) targets c).edges)
-    (hclosed : ∀ n ∈ planned preds (fuel + 1) targets c, ∀ p ∈ preds n, p ∉ c.inputs →
-      p ∈ planned preds (fuel + 1) targets c)
     (hset : ∀ x, x ∈ ordered ↔ x ∈ planned preds (fuel + 1) targets c) (hd : ordered.Nodup)
     (ht : isTopo (succsOf (traceTargets preds (fuel + 1) targets c).edges) ordered = true) :
     (∀ x, x ∈ (execute preds (fuel' + 1)
@@ -340,7 +338,7 @@ theorem generate_plan_execute_correct (preds : Node → List Node) (fuel fuel' :
           (targets.filter (fun t => !decide (t ∈ c.inputs))) size)
         (generateLeaves preds (fuel + 1) targets c)).log =
       (generateLeaves preds (fuel + 1) targets c).log ++ ordered :=
-  generate_then_execute_any preds fuel fuel' targets ordered size c hz h hct hcomp hclosed hset hd ht
+  generate_then_execute_full preds fuel fuel' targets ordered size c hz h hct hcomp hset hd ht
 
 /-- **generate_plan_execute_inputs_only** the same from a cache that holds user inputs only: no
 hypothesis about the graph is needed, only that tracing ran to completion (`hdone`); at the end
@@ -499,7 +497,7 @@ example : ∀ x, x ∈ (execute partPreds 1
       (generateLeaves partPreds 9 [4] partCache)).held ↔
     x ∈ [4] ∨ x ∈ (generateLeaves partPreds 9 [4] partCache).held :=
   (generate_plan_execute_correct partPreds 8 0 [4] [0, 1, 2, 3, 4] 2 partCache (by decide)
-    ⟨by decide, by decide⟩ (by decide) (by decide) (by decide)
+    ⟨by decide, by decide⟩ (by decide) (by decide)
     (fun x => by
       rw [show planned partPreds (8 + 1) [4] partCache = [4, 3, 0, 2, 1] from by decide]
       simp only [List.mem_cons, List.not_mem_nil, or_false]
